@@ -105,6 +105,7 @@ pub fn all_gets(m: &PackageMetadata) -> Vec<Value> {
             "linkto": b(&e.linkto),
             "digest": match &e.digest { Some(d) => json!({"some": d.as_hex().as_bytes()}), None => json!({"none": true}) },
             "caps": match &e.caps { Some(c) => json!({"some": c.as_bytes()}), None => json!({"none": true}) },
+            "ima": match &e.ima_signature { Some(c) => json!({"some": c.as_bytes()}), None => json!({"none": true}) },
         })).collect())
     })}));
     out.push(json!({"acc":"get_file_paths","res":res(guarded(|| m.get_file_paths()), |v| {
